@@ -27,6 +27,8 @@ structure St where
 deriving Inhabited
 
 def fuel : Nat := 64
+/-- the harness has three generated extension types (harness/cmd/h-gerroris/xt) -/
+def numExtTypes : Nat := 3
 
 def resChar : Res → Char
   | .t => 't' | .f => 'f' | .panic => 'p' | .fuel => '?'
@@ -87,8 +89,8 @@ def handle (st : St) (ws : List String) : St × String :=
     let cmd : Option Cmd := match kind.splitOn ":" with
       | ["base"] => some (.newBase true)
       | ["bare"] => some (.newBase false)
-      | ["ext", t] => t.toNat?.map (fun t => .newExt t true)
-      | ["bareext", t] => t.toNat?.map (fun t => .newExt t false)
+      | ["ext", t] => (t.toNat?.filter (· < numExtTypes)).map (fun t => .newExt t true)
+      | ["bareext", t] => (t.toNat?.filter (· < numExtTypes)).map (fun t => .newExt t false)
       | _ => none
     match cmd with
     | some c =>
